@@ -99,7 +99,7 @@ func ruleAugOnce(c *Ctx) []Obligation {
 	if len(finds) != 1 {
 		return []Obligation{undecided(R, "target lookup", pos, fmt.Sprintf("%d Find calls in the augment applier", len(finds)))}
 	}
-	target := finds[0].Value()
+	target := refinedTarget(finds[0].Value())
 	header := loopHeaderOf(finds[0].Block())
 	if header == nil {
 		return []Obligation{undecided(R, "augment loop", pos, "the target lookup is not inside a loop")}
